@@ -54,12 +54,18 @@ func collectEncodings(tier string, rng *rand.Rand, perKind int) []validEnc {
 		if c.Gen == nil {
 			continue
 		}
-		n := 0
-		c.Gen(tier, rng, func(fields string) {
-			if perKind > 0 && n >= perKind {
-				return
+		// a bounded sample is spread evenly over what the kind's generator emits (generators walk through
+		// data types and options in order: the first N would leave whole data types out)
+		var all []string
+		c.Gen(tier, rng, func(fields string) { all = append(all, fields) })
+		if perKind > 0 && len(all) > perKind {
+			var pick []string
+			for i := 0; i < perKind; i++ {
+				pick = append(pick, all[i*len(all)/perKind])
 			}
-			n++
+			all = pick
+		}
+		for _, fields := range all {
 			f := strings.Fields(fields)
 			ctx := "-"
 			if c.NeedsCtx && c.CtxFor != nil {
@@ -75,7 +81,7 @@ func collectEncodings(tier string, rng *rand.Rand, perKind int) []validEnc {
 					out = append(out, validEnc{k, fields, bs, ctx, true})
 				}
 			}
-		})
+		}
 	}
 	return out
 }
@@ -398,6 +404,10 @@ func c10Gen(tier string, rng *rand.Rand, emit func(Case)) {
 		body2 := append(rEnv([3]string{"\x03", "utf8", ""}, [3]string{"\x04", v, "512"}, [3]string{"\x04", "2048", "512"}).bytes, rDone(0, 1).bytes...)
 		emit(Case{Line: fmt.Sprintf("rx 1 0 b1:%s send", hx(body2)), Kind: "hostile-packet-size"})
 	}
+	// sequences a server must not send but can: every order of format, data, ORDERBY and other packages
+	// (a data package takes its format from the package before it — a format, a data package or an
+	// ORDERBY — so what a package hands on depends on the history)
+	grammarGen(tier, rng, emit)
 	// packet level: all header values incl. length < 8 (c14.go)
 	rdrawGen(tier, rng, emit)
 	// value level: every data type with every data length 0..255 (c10values.go)
@@ -502,4 +512,59 @@ func init() {
 		NoModel:     func(line string) bool { return strings.HasPrefix(line, "mem ") },
 		Assumptions: []string{"allocation: PacketQueue.Bytes checks availability before allocating (fix 31957a3); measured for a sample of the hostile-length cases in a process of its own (TotalAlloc while decoding <= 4 MiB + 300 x case length, address space limited to 3 GiB)"},
 	})
+}
+
+// grammarGen: all sequences of up to four packages (thorough: five) over formats (narrow / wide, row /
+// param), data packages of both tokens, both ORDERBY tokens and a DONE(MORE), one INT4 column each,
+// followed by a final DONE, as one response through the real channel (`rx` lines).
+func grammarGen(tier string, rng *rand.Rand, emit func(Case)) {
+	col := func(name string, status []byte) []byte {
+		b := append([]byte{byte(len(name))}, name...)
+		b = append(b, status...)
+		b = append(b, le32(0)...)
+		return append(b, 0x38, 0) // INT4, no locale
+	}
+	narrow := append(le16(1), col("c", []byte{0})...)
+	wideRow := le16(1)
+	for i := 0; i < 5; i++ { // label, catalog, schema, table, column
+		wideRow = append(wideRow, 1, 'c')
+	}
+	wideRow = append(wideRow, le32(0)...)
+	wideRow = append(wideRow, le32(0)...)
+	wideRow = append(wideRow, 0x38, 0)
+	wideParam := append(le16(1), col("c", le32(0))...)
+	alphabet := map[string][]byte{
+		"rf":  append(append([]byte{0xEE}, le16(len(narrow))...), narrow...),
+		"pf":  append(append([]byte{0xEC}, le16(len(narrow))...), narrow...),
+		"rf2": append(append([]byte{0x61}, le32(len(wideRow))...), wideRow...),
+		"pf2": append(append([]byte{0x20}, le32(len(wideParam))...), wideParam...),
+		"r":   append([]byte{0xD1}, le32(7)...),
+		"p":   append([]byte{0xD7}, le32(9)...),
+		"ob":  {0xA9, 1, 0, 1},
+		"ob2": {0x22, 4, 0, 0, 0, 1, 0, 1, 0},
+		"dm":  wDone(0xFD, 1, 0, 3),
+	}
+	names := []string{"rf", "pf", "rf2", "pf2", "r", "p", "ob", "ob2", "dm"}
+	maxLen := 4
+	if tier == "thorough" {
+		maxLen = 5
+	}
+	var rec func(prefix []string)
+	rec = func(prefix []string) {
+		if len(prefix) > 0 {
+			var body []byte
+			for _, n := range prefix {
+				body = append(body, alphabet[n]...)
+			}
+			body = append(body, wDone(0xFD, 0, 0, 1)...)
+			emit(Case{Line: fmt.Sprintf("rx 1 0 b1:%s", hx(body)), Kind: "package-order"})
+		}
+		if len(prefix) == maxLen {
+			return
+		}
+		for _, n := range names {
+			rec(append(append([]string{}, prefix...), n))
+		}
+	}
+	rec(nil)
 }
